@@ -521,3 +521,67 @@ Proof.
   intros offs rest Hb. pose proof (model_xref_entries_gen offs 1 [] rest Hb) as H.
   rewrite app_nil_r in H. exact H.
 Qed.
+
+(* ------------------------------------------------------------------------------------------------
+   Capstone: the strict reader (written from ISO 32000-1 only) accepts the WHOLE output of the plain
+   writer model and reads back exactly the document that was written: every written object under its
+   new number with the same value (references renumbered) and the same stream bytes, nothing else,
+   one cross-reference section, the same version, the trailer with /Size = n+1 and the /ID pair.
+   Hypotheses other than the ones below may be added by the prover only if they are decidable
+   well-formedness conditions of the document (no condition on the output bytes other than its
+   length < 10^10, which is the xref format's limit). *)
+
+Definition sobj_view (out : list N) (so : sobj) : N * N * pobj * option (list N) :=
+  (so_num so, so_gen so, so_val so,
+   match so_stream so with
+   | Some (doff, len) => Some (firstn (N.to_nat len) (skipn (N.to_nat doff) out))
+   | None => None
+   end).
+
+Definition wm_out (d : doc) : list N := write_doc wm_unparse_string wm_unparse_name d.
+
+(* value the reader must return for a written object: the dictionary of a stream carries /Length last *)
+Definition expected_val (d : doc) (i : indirect) : pobj :=
+  match i_stream i with
+  | None => to_pobj (d_objects d) (doc_ren d) (i_val i)
+  | Some data =>
+      match to_pobj (d_objects d) (doc_ren d) (drop_length (i_val i)) with
+      | SpDict l => SpDict (l ++ [(k_Length, SpInt (Z.of_nat (length data)))])
+      | v => v
+      end
+  end.
+
+Definition expected_trailer (d : doc) : list (list N * pobj) :=
+  let n := N.of_nat (length (written (graph_of d) (roots_of d))) in
+  flat_map (fun kv => if is_null_val (d_objects d) (snd kv) then []
+                      else [(fst kv, if beqb (fst kv) k_Size then SpInt (Z.of_N (n + 1))
+                                     else to_pobj (d_objects d) (doc_ren d) (snd kv))]) (d_trailer d)
+  ++ [([73; 68], SpArr [SpStr (d_id1 d); SpStr (d_id2 d)])].
+
+Record wf_doc (d : doc) : Prop := {
+  wfd_closed : doc_closed d;
+  wfd_objs : wf_doc_objs d;
+  wfd_trailer : wf_wobj (ODict (d_trailer d));
+  wfd_streams : forall k i, In (k, i) (d_objects d) -> i_stream i <> None -> exists dd, i_val i = ODict dd;
+  wfd_stream_bytes : forall k i data, In (k, i) (d_objects d) -> i_stream i = Some data -> Forall (fun b => b < 256) data;
+  wfd_version : exists a b, d_version d = [a; 46; b] /\ is_digit a = true /\ is_digit b = true;
+  wfd_ids : Forall (fun b => b < 256) (d_id1 d) /\ Forall (fun b => b < 256) (d_id2 d);
+  wfd_root : exists r i, find (fun kv => beqb (fst kv) k_Root) (d_trailer d) = Some (k_Root, ORef r)
+                         /\ find_obj (d_objects d) r = Some i /\ is_null_val (d_objects d) (ORef r) = false;
+  wfd_size : exists z, find (fun kv => beqb (fst kv) k_Size) (d_trailer d) = Some (k_Size, OInt z);
+  wfd_keys_nodup : NoDup (map fst (d_trailer d))
+                   /\ ~ In [73; 68] (map fst (d_trailer d))
+                   /\ (forall k i dd, In (k, i) (d_objects d) -> i_val i = ODict dd -> NoDup (map fst dd))
+}.
+
+Lemma write_read_strict_lemma : forall d, wf_doc d ->
+  N.of_nat (length (wm_out d)) < 10 ^ 10 ->
+  exists f, read_strict (wm_out d) = RsOk f
+    /\ sf_version f = d_version d
+    /\ sf_sections f = 1 /\ sf_xref_stream f = false
+    /\ sf_trailer f = expected_trailer d
+    /\ length (sf_objs f) = length (written (graph_of d) (roots_of d))
+    /\ (forall id i, In id (written (graph_of d) (roots_of d)) -> find_obj (d_objects d) id = Some i ->
+          exists so, In so (sf_objs f)
+                     /\ sobj_view (wm_out d) so = (doc_ren d id, 0, expected_val d i, i_stream i)).
+Proof. Abort.
